@@ -224,12 +224,14 @@ class AwaitMarker:
 
 class AsyncEvent:
     def __init__(self, I):
-        self.flag = False
+        self.flag = False       # bool or Sym(bool): segments are analysed from a symbolic state
+        I.ghost.setdefault("async_events", []).append(self)
 
     def pyvc_getattr(self, I, name):
         if name == "set":
             def set_(I_, a, k):
                 I_.log_write(("event", self))
+                I_.ghost.setdefault("trace", []).append(("event.set", self))
                 self.flag = True
             return Native(name, set_)
         if name == "is_set":
